@@ -223,6 +223,7 @@ int parse_instruction_webasm(AsmContext *asm_context, char *instr)
         if (token_type != TOKEN_EOF && token_type != TOKEN_EOL)
         {
           print_error_unexp(asm_context, token);
+          return -1;
         }
 
         length += 1;
